@@ -155,15 +155,19 @@ class FsExec(mirpool.PoolExec):
             S.events.append(("commit", src, dst))
             ok = self.fresh("commit_ok", "bool")
             return [(S, V("enum", ty="Result", disc=z3.If(ok, 0, 1), payload={"Ok": [V("tuple", items=[])], "Err": [OPQ("error")]}))]
+        fn = self.same_crate_fn(c, len(args))
+        if fn is not None:          # a helper of the analysed crate: follow the logic into it
+            return self.inline_call(S, fn, args)
         for a in args:
             v = a
-            if v.kind == "ref":
-                try:
-                    v = self.deref(S, v)
-                except Unsupported:
-                    continue
-            if v.kind == "path" and re.search(r"fs::|File::|OpenOptions|create_dir|remove_|rename|copy|write", c):
-                raise Unsupported("unmodelled filesystem call: " + c[:80])
+            for _ in range(3):
+                if v.kind == "ref":
+                    try:
+                        v = self.deref(S, v)
+                    except Unsupported:
+                        break
+            if v.kind == "path" and not re.search(r"Path::(display|to_str|to_string_lossy|as_os_str|parent|is_absolute)$|fmt|Argument", c):
+                raise Unsupported("unmodelled call that receives one of the publication paths: " + c[:80])
         self.unknown_calls.add(re.sub(r"<.*>", "<..>", c)[:80])
         return [(S, OPQ("call " + c[:40]))]
 
